@@ -4,7 +4,7 @@ HEADER = """C09 — search_cycle returns a genuine cycle through the root iff on
    Directed: IsPath root p root with p non-empty = a path of one or more accepted stored edges from the root back
    to it; NoDup of the targets = no intermediate node twice (hence no edge occurrence twice: the root is entered by
    the last edge only). Undirected (d = DAdj): the same statement reads "a closed walk of accepted half-edges"."""
-REQUIRES = ["From Gdsl.Model Require Import Spec Callback.", "From Gdsl.Proofs Require Import Worklist Bfs Descend SearchGlue."]
+REQUIRES = ["From Gdsl.Model Require Import Spec Callback.", "From Gdsl.Proofs Require Import Worklist Bfs Descend SearchGlue CycleUndirected."]
 PINS = [
  ("c09_cycle_sound_bfs_pfs", "wlq_cycle_sound", "breadth-/priority-first: a returned cycle starts and ends at the root, consists of accepted stored edges joined end to start, and its targets are pairwise distinct"),
  ("c09_cycle_complete_bfs_pfs", "wlq_cycle_complete", "breadth-/priority-first: None only if no path of one or more accepted edges leads from the root back to it"),
@@ -12,6 +12,9 @@ PINS = [
  ("c09_cycle_complete_dfs", "dfs_cycle_complete", "depth-first: same completeness"),
  ("c09_bfs_cycle_shortest", "bfs_cycle_shortest", "the breadth-first cycle has the fewest possible edges"),
  ("c09_no_panic_bfs_pfs", "wlq_no_panic", "never the unwrap() panic of backtrack_edge_tree"),
+ ("c09_terminates_bfs_pfs", "wlq_terminates", "fuel_bound suffices, also in cycle mode (cyc = true): the search terminates"),
+ ("c09_terminates_dfs", "dfs_terminates", "depth-first: same"),
+ ("c09_undirected_cycle_iff_incident", "undirected_cycle_iff_incident", "undirected, without a filter, on a graph whose half-edges are mirrored (C02): search_cycle of every kind returns a cycle exactly when the root has an incident edge"),
  ("c09_no_panic_dfs", "dfs_no_panic", "never the unwrap() panic of backtrack_edge_tree (depth-first)"),
 ]
 EXTRA = """
